@@ -4,6 +4,8 @@ pub mod c02;
 pub mod c05;
 pub mod c06;
 pub mod c10;
+pub mod c15;
+pub mod c17;
 pub mod c18;
 pub mod c19;
 pub mod c03;
@@ -16,6 +18,8 @@ pub fn run(ctx: &Ctx) -> bool {
         "C05" => c05::run(ctx),
         "C06" => c06::run(ctx),
         "C10" => c10::run(ctx),
+        "C15" => c15::run(ctx),
+        "C17" => c17::run(ctx),
         "C18" => c18::run(ctx),
         "C19" => c19::run(ctx),
         "C03" => c03::run(ctx),
